@@ -157,3 +157,137 @@ Example C09_nonvacuous :
     handle_offered_contents [[x01]; [x04]] [x01; xaa; x02; xdd; xdd] true = Ok (Some ([[x01]; [x04]], [[xaa]; [xdd; xdd]])) /\
     handle_offered_contents [[x01]; [x04]] [x01; xaa] true = Err E_CONTENT_COUNT.
 Proof. eexists. vm_compute. repeat split. Qed.
+
+(* ======================================================================================================================
+   END TO END ACROSS BOTH NODES (Model/EndToEnd.v, Proofs/EndToEnd.v): from the OFFER request to the receiver's Put.
+   The property's last sentence - "the items handed to validation are exactly the offered contents of the accepted keys
+   paired with those keys in order" - continued through validation down to the store:
+     receiver  handle_offer (verdicts, connection id, listener)                                         C09
+     offerer   process_offer on that very reply (what is dialled, encode_contents of the accepted items) C09 / C15
+     transport [deliver]: what the receiver reads given what the offerer wrote - an ARBITRARY function; "the stream arrives
+               intact" is the hypothesis  deliver sent = sent
+     receiver  handle_offered_contents (C15: one item per awaited key or nothing), then validateContents:
+               history = C02's validator with C03's header proof check; state = C13 behind the key switch; then Put
+   [offer_exchange] chains the four; the versions are what each side derives from the other's record (C19).
+   Statement, for every offer (keys, contents), every receiver view nv (radius, stored set, in-flight set, queue room), permit,
+   store, header source, library instantiation, and both protocol versions:
+     - whatever the transport delivers, every Put is bound to its key (genuine / C13's chain predicate) and its key is an
+       ACCEPTED key of the offer (so nothing is Put under a declined key);
+     - if the stream arrives intact, the Puts are, in order, offered pairs (k_i, c_i) at accepted indices i;
+     - a stream that does not decode to exactly one item per accepted key (truncated, extended, malformed) Puts nothing;
+     - nothing accepted: nothing is dialled, nobody listens, nothing is Put.
+   STILL ABSTRACT: uTP (connection establishment, delivery, timeouts: the function [deliver] and the intactness hypothesis;
+   loss / reordering are not modelled), discv5 delivery of the TALKREQ / TALKRESP pair (the reply the offerer processes is
+   the one the receiver produced), goroutines / permits beyond the one boolean, the content queue (never full here), the
+   library functions of C02 / C03 / C13 (universally quantified, see Properties/C01.v), pebble behind Put, gossip afterwards.
+   Standing hypotheses as above in this file: at most 64 keys, a 16-bit connection id, items shorter than 2^32 bytes. *)
+From Shisui Require Import Model.History Model.StateTrie Model.ContentFull Model.EndToEnd
+     Proofs.History Proofs.StateTrie Proofs.ContentFull Proofs.EndToEnd.
+
+(* history network *)
+Theorem C09_history_end_to_end : forall v nv pf cid lookup keys cs deliver B A src s r s' puts,
+  v = 0 \/ v = 1 -> (length keys <= 64)%nat -> cid < 65536 -> length cs = length keys -> Forall short cs ->
+  store_ok (lib_of B A) s ->
+  history_exchange (Ok v) (Ok v) nv pf cid lookup keys cs deliver B A src s = Ok (r, s', puts) ->
+  let flags := final_flags v nv pf keys in
+  let sent := encode_contents (select flags cs) in
+  store_ok (lib_of B A) s' /\
+  Forall (fun p => genuine (lib_of B A) (fst p) (snd p) /\ In (fst p) (select flags keys)) puts /\
+  (deliver sent = sent ->
+     subseq puts (select flags (combine keys cs)) /\
+     forall k c, In (k, c) puts ->
+       exists i, nth_error flags i = Some true /\ nth_error keys i = Some k /\ nth_error cs i = Some c) /\
+  ((forall contents, decode_contents (deliver sent) = Ok contents -> length contents <> length (select flags keys)) ->
+     puts = [] /\ s' = s) /\
+  (anyb flags = false -> puts = [] /\ s' = s).
+Proof. exact history_end_to_end. Qed.
+Print Assumptions C09_history_end_to_end.
+
+(* an accepted index means what C09_reply_verdicts says of the receiver's state: in radius, not stored, (v1) not in flight,
+   (v0) room in the queue, a transfer slot obtained *)
+Theorem C09_accepted_index_means : forall v nv pf keys i,
+  v = 0 \/ v = 1 -> nth_error (final_flags v nv pf keys) i = Some true ->
+  exists k, nth_error keys i = Some k /\ nv_inrange nv k = true /\ nv_stored nv k = false /\
+            (v = 1 -> nv_inflight nv k = false) /\ (v = 0 -> nv_queue_room nv = true) /\ pf = true.
+Proof. exact accepted_index_means. Qed.
+Print Assumptions C09_accepted_index_means.
+
+(* with the versions the two nodes derive from each other's ENR on first contact (C19_two_nodes_compose): they agree; an
+   offerer implementing versions 0 and 1 gets one of them; the statement above holds for it *)
+Theorem C09_history_end_to_end_negotiated : forall va vb cx cy nx ny nv pf cid lookup keys cs deliver B A src s r s' puts,
+  cx ny = None -> cy nx = None -> (forall x, In x va -> x = 0 \/ x = 1) ->
+  (length keys <= 64)%nat -> cid < 65536 -> length cs = length keys -> Forall short cs -> store_ok (lib_of B A) s ->
+  history_exchange (version_at_offerer va vb cx ny) (version_at_receiver va vb cy nx) nv pf cid lookup keys cs deliver B A src s
+    = Ok (r, s', puts) ->
+  exists v, (v = 0 \/ v = 1) /\ version_at_offerer va vb cx ny = Ok v /\ version_at_receiver va vb cy nx = Ok v /\
+            history_e2e_ok v nv pf keys cs deliver (lib_of B A) s s' puts.
+Proof. exact history_end_to_end_negotiated. Qed.
+Print Assumptions C09_history_end_to_end_negotiated.
+
+(* state network: a new value under a content id is justified by a position j of (accepted keys, received items):
+   state_item_at = the key has a state key type, its content id is that id, the pair decodes to a request satisfying C13's
+   chain predicate content_ok against the header answer of that step, and the value is what Put derives from it *)
+Theorem C09_state_end_to_end : forall v nv pf cid lookup keys cs deliver L s r s',
+  v = 0 \/ v = 1 -> (length keys <= 64)%nat -> cid < 65536 -> length cs = length keys -> Forall short cs ->
+  state_exchange (Ok v) (Ok v) nv pf cid lookup keys cs deliver L s = Ok (r, s') ->
+  let flags := final_flags v nv pf keys in
+  let sent := encode_contents (select flags cs) in
+  (forall id val, StateTrie.store_get s' id = Some val ->
+     StateTrie.store_get s id = Some val \/
+     exists contents j k c, decode_contents (deliver sent) = Ok contents /\ In k (select flags keys) /\
+                            state_item_at L (select flags keys) contents id val j k c) /\
+  (deliver sent = sent ->
+     forall id val, StateTrie.store_get s' id = Some val ->
+       StateTrie.store_get s id = Some val \/
+       exists i j k c, nth_error flags i = Some true /\ nth_error keys i = Some k /\ nth_error cs i = Some c /\
+                       state_item_at L (select flags keys) (select flags cs) id val j k c) /\
+  ((forall contents, decode_contents (deliver sent) = Ok contents -> length contents <> length (select flags keys)) -> s' = s) /\
+  (anyb flags = false -> s' = s).
+Proof. exact state_end_to_end. Qed.
+Print Assumptions C09_state_end_to_end.
+
+Theorem C09_state_end_to_end_negotiated : forall va vb cx cy nx ny nv pf cid lookup keys cs deliver L s r s',
+  cx ny = None -> cy nx = None -> (forall x, In x va -> x = 0 \/ x = 1) ->
+  (length keys <= 64)%nat -> cid < 65536 -> length cs = length keys -> Forall short cs ->
+  state_exchange (version_at_offerer va vb cx ny) (version_at_receiver va vb cy nx) nv pf cid lookup keys cs deliver L s = Ok (r, s') ->
+  exists v, (v = 0 \/ v = 1) /\ version_at_offerer va vb cx ny = Ok v /\ version_at_receiver va vb cy nx = Ok v /\
+            state_e2e_ok v nv pf keys cs deliver L s s'.
+Proof. exact state_end_to_end_negotiated. Qed.
+Print Assumptions C09_state_end_to_end_negotiated.
+
+(* the receiver side alone, for ANY stream and ANY awaited keys: one item per key and the Puts taken in order from the
+   (key, item) pairs - or nothing happened *)
+Theorem C09_receiver_puts_from_stream : forall B A src awaited stream s r s' puts,
+  history_offered_contents B A src awaited stream s = (r, s', puts) ->
+  (exists contents, decode_contents stream = Ok contents /\ length contents = length awaited /\
+                    subseq puts (combine awaited contents)) \/
+  (puts = [] /\ s' = s /\ forall contents, decode_contents stream = Ok contents -> length contents <> length awaited).
+Proof. exact history_offered_shape. Qed.
+Print Assumptions C09_receiver_puts_from_stream.
+
+(* a two-key offer, one key declined (the body key is outside the receiver's radius): only the header item travels and is
+   Put, after the REAL SHA-256 header proof check; with no free permit nothing travels; a truncated stream Puts nothing;
+   state network the same with a declined second key; the versions of a [0; 1] offerer and a [1] receiver meet at 1 *)
+Definition ex_nv_history : nodeview := {| nv_nilid := fun _ => false; nv_inrange := fun k => negb (bytes_eqb k ex_body_key);
+   nv_stored := fun _ => false; nv_inflight := fun _ => false; nv_queue_room := true |}.
+Definition ex_nv_state : nodeview := {| nv_nilid := fun _ => false; nv_inrange := fun k => negb (bytes_eqb k [x20; x00]);
+   nv_stored := fun _ => false; nv_inflight := fun _ => false; nv_queue_room := true |}.
+Example C09_end_to_end_nonvacuous :
+  final_flags 1 ex_nv_history true [ex_body_key; ex_header_key] = [false; true] /\
+  history_exchange (Ok 1) (Ok 1) ex_nv_history true 770 (fun _ => None) [ex_body_key; ex_header_key]
+      [ex_body_content; ex_header_content] (fun x => x) ex_hlib ex_hacc ex_src [] =
+    Ok (Ok tt, [(ex_header_key, ex_header_content)], [(ex_header_key, ex_header_content)]) /\
+  history_exchange (Ok 0) (Ok 0) ex_nv_history true 770 (fun _ => None) [ex_body_key; ex_header_key]
+      [ex_body_content; ex_header_content] (fun x => x) ex_hlib ex_hacc ex_src [] =
+    Ok (Ok tt, [(ex_header_key, ex_header_content)], [(ex_header_key, ex_header_content)]) /\
+  history_exchange (Ok 1) (Ok 1) ex_nv_history true 770 (fun _ => None) [ex_body_key; ex_header_key]
+      [ex_body_content; ex_header_content] (fun x => firstn 100 x) ex_hlib ex_hacc ex_src [] = Ok (Err E_INSUFFICIENT, [], []) /\
+  history_exchange (Ok 1) (Ok 1) ex_nv_history false 770 (fun _ => None) [ex_body_key; ex_header_key]
+      [ex_body_content; ex_header_content] (fun x => x) ex_hlib ex_hacc ex_src [] = Ok (Ok tt, [], []) /\
+  state_exchange (Ok 1) (Ok 1) ex_nv_state true 9 (fun _ => None) [ex_state_key; [x20; x00]]
+      [ex_state_content [[x02]; [x03]]; [x01]] (fun x => x) ex_slib [] =
+    Ok (Ok tt, [(firstn 3 ex_state_key, [x04; x00; x00; x00; x03])]) /\
+  state_exchange (Ok 1) (Ok 1) ex_nv_state true 9 (fun _ => None) [ex_state_key; [x20; x00]]
+      [ex_state_content [[x02]; [x03]]; [x01]] (fun x => x ++ [x00]) ex_slib [] = Ok (Err Dispatch.E_COUNT, []) /\
+  (version_at_offerer [0; 1] [1] empty_cache 2, version_at_receiver [0; 1] [1] empty_cache 1) = (Ok 1, Ok 1).
+Proof. repeat match goal with |- _ /\ _ => split end; vm_compute; reflexivity. Qed.
